@@ -88,6 +88,35 @@ def OMap.step (cfg : Cfg K V) (m : List (K × V)) : Op K V → List (K × V) × 
   | .rangeWithStart st stop => (m, .kvs (stopAfter stop (OMap.from cfg.cmp m st)))
   | .rangeWithRange st e stop => (m, .kvs (stopAfter stop (OMap.between cfg.cmp m st e)))
 
+/-- The same call on the specification for a weak-order comparator: a key addresses the binding
+whose stored key is equivalent to it; `GetNode`/`node.SetValue` answer and act on the STORED
+key; a replacing `Set` keeps the stored key. -/
+def OMap.stepW (cfg : Cfg K V) (m : List (K × V)) : Op K V → List (K × V) × Out K V
+  | .set k v _ => (OMap.setW cfg.cmp m k v, .unit)
+  | .setX k v _ =>
+      if (OMap.getW cfg.cmp m k).isSome then (OMap.setW cfg.cmp m k v, .bool true) else (m, .bool false)
+  | .setNx k v _ =>
+      if (OMap.getW cfg.cmp m k).isSome then (m, .bool false) else (OMap.setW cfg.cmp m k v, .bool true)
+  | .remove k => match OMap.getW cfg.cmp m k with
+      | some v => (OMap.erase cfg.cmp m k, .valBool v true)
+      | none => (m, .valBool cfg.zeroV false)
+  | .clear => ([], .unit)
+  | .get k => match OMap.getW cfg.cmp m k with
+      | some v => (m, .valBool v true)
+      | none => (m, .valBool cfg.zeroV false)
+  | .getNode k => (m, .node (OMap.keyW cfg.cmp m k))
+  | .setNodeValue k v => match OMap.keyW cfg.cmp m k with
+      | some n => (OMap.setW cfg.cmp m k v, .node (some n))
+      | none => (m, .node none)
+  | .len => (m, .int m.length)
+  | .head => (m, .node (m.head?.map Prod.fst))
+  | .keys => (m, .keys (m.map Prod.fst))
+  | .values => (m, .vals (m.map Prod.snd))
+  | .range stop => (m, .kvs (stopAfter stop m))
+  | .all stop => (m, .kvs (stopAfter stop m))
+  | .rangeWithStart st stop => (m, .kvs (stopAfter stop (OMap.from cfg.cmp m st)))
+  | .rangeWithRange st e stop => (m, .kvs (stopAfter stop (OMap.between cfg.cmp m st e)))
+
 /-- Reachable states: an initialised list satisfying the invariant, or (for `SkipList`) the
 untouched zero value. -/
 def Good (cfg : Cfg K V) (s : SL K V) : Prop := Inv cfg.cmp s ∨ (cfg.lazy = true ∧ s = SL.zero)
@@ -106,10 +135,279 @@ theorem Inv.isSome_get {cmp : K → K → Int} {s : SL K V} (h : Inv cmp s) (k :
     simp [hk, hv]
   · simp [hk]
 
+theorem Inv.isSome_getW {cmp : K → K → Int} {s : SL K V} (h : Inv cmp s) (k : K) :
+    (OMap.getW cmp (toMap s) k).isSome = (findEq cmp k (chain0 s)).isSome := by
+  rw [h.getW_toMap]
+  cases hf : findEq cmp k (chain0 s) with
+  | none => rfl
+  | some n =>
+    obtain ⟨v, hv⟩ := h.valOf_some (findEq_some hf).1
+    simp [hv]
+
 theorem toMap_zero : toMap (SL.zero : SL K V) = [] := rfl
 theorem toMap_init : toMap (SL.init : SL K V) = [] := by simp [toMap, chain0, SL.init, maxLevel]
 
 /-- `set` on an initialised list. -/
+theorem set_sim_weak (cfg : Cfg K V) (hc : WeakCmp cfg.cmp) {s : SL K V} (h : Inv cfg.cmp s)
+    (k : K) (v : V) (mode r : Nat) (hmode : mode ≤ 2) :
+    ∃ s' b, s.set cfg k v mode r = some (s', b) ∧ Inv cfg.cmp s' ∧ s'.level ≤ s.level + 1 ∧
+      (toMap s', b) =
+        (if mode = 0 then (OMap.setW cfg.cmp (toMap s) k v, true)
+         else if mode = 1 then
+           (if (OMap.getW cfg.cmp (toMap s) k).isSome then (OMap.setW cfg.cmp (toMap s) k v, true)
+            else (toMap s, false))
+         else
+           (if (OMap.getW cfg.cmp (toMap s) k).isSome then (toMap s, false)
+            else (OMap.setW cfg.cmp (toMap s) k v, true))) := by
+  obtain ⟨hr1, hr2⟩ := randomLevel_range r
+  unfold SL.set
+  rw [h.isSome_getW]
+  cases hf : findEq cfg.cmp k (chain0 s) with
+  | some n =>
+    obtain ⟨hk, hnk⟩ := findEq_some hf
+    rw [setH_found cfg hc h hf]
+    obtain ⟨hi, _, hm⟩ := Inv.of_setVal hc h hk v
+    have hset : OMap.setW cfg.cmp (toMap s) k v = OMap.set cfg.cmp (toMap s) n v :=
+      omap_setW_of_some hc (by rw [h.keyW_toMap, hf]) v
+    rw [hset]
+    by_cases h2 : mode = 2
+    · subst h2; exact ⟨s, false, by simp, h, by omega, by simp⟩
+    · refine ⟨_, true, by simp [h2], hi, by simp, ?_⟩
+      rw [hm]
+      by_cases h0 : mode = 0
+      · simp [h0]
+      · have : mode = 1 := by omega
+        simp [this]
+  | none =>
+    have hkw := findEq_none.mp hf
+    rw [setH_absent cfg hc h hf v mode _ hr2]
+    obtain ⟨hi, _, hm⟩ := Inv.of_inserted hc h hkw v hr1 hr2
+    have hset : OMap.setW cfg.cmp (toMap s) k v = OMap.set cfg.cmp (toMap s) k v :=
+      omap_setW_of_none (by rw [h.keyW_toMap, hf]) v
+    rw [hset]
+    by_cases h1 : mode = 1
+    · subst h1; exact ⟨s, false, by simp, h, by omega, by simp⟩
+    · refine ⟨_, true, by simp [h1], hi, ?_, ?_⟩
+      · simp only [inserted]; split <;> omega
+      · rw [hm]
+        by_cases h0 : mode = 0
+        · simp [h0]
+        · have : mode = 2 := by omega
+          simp [this]
+
+theorem zero_set (cfg : Cfg K V) (hl : cfg.lazy = true) (k : K) (v : V) (mode r : Nat) :
+    (SL.zero : SL K V).set cfg k v mode r = (SL.init : SL K V).set cfg k v mode r := by
+  simp [SL.set, SL.setH, SL.zero, hl, SL.init, maxLevel]
+
+/-- One step of the simulation (weak-order comparator): no panic, reachable states stay
+reachable, the abstraction commutes with the step, outputs agree, the level grows by at most one. -/
+theorem step_sim_weak (cfg : Cfg K V) (hc : WeakCmp cfg.cmp) (hf : cfg.fixed = true) {s : SL K V}
+    (hg : Good cfg s) (op : Op K V) :
+    ∃ s' out, s.step cfg op = some (s', out) ∧ Good cfg s' ∧
+      OMap.stepW cfg (toMap s) op = (toMap s', out) ∧ s'.level ≤ max s.level 1 + 1 := by
+  rcases hg with h | ⟨hl, rfl⟩
+  · -- initialised
+    cases op with
+    | set k v r =>
+      obtain ⟨s', b, h1, h2, h3, h4⟩ := set_sim_weak cfg hc h k v 0 r (by omega)
+      simp only [if_true, Prod.mk.injEq] at h4
+      exact ⟨s', .unit, by simp [SL.step, h1], Or.inl h2, by simp [OMap.stepW, h4.1], by omega⟩
+    | setX k v r =>
+      obtain ⟨s', b, h1, h2, h3, h4⟩ := set_sim_weak cfg hc h k v 1 r (by omega)
+      refine ⟨s', .bool b, by simp [SL.step, h1], Or.inl h2, ?_, by omega⟩
+      simp only [OMap.stepW]
+      simp only [show (1 : Nat) ≠ 0 by decide, if_false, if_true] at h4
+      by_cases hs : (OMap.getW cfg.cmp (toMap s) k).isSome = true
+      · simp only [hs, if_true] at h4 ⊢
+        obtain ⟨e1, e2⟩ := Prod.mk.inj h4; rw [e1, e2]
+      · simp only [hs, if_false] at h4 ⊢
+        obtain ⟨e1, e2⟩ := Prod.mk.inj h4; rw [e1, e2]; simp
+    | setNx k v r =>
+      obtain ⟨s', b, h1, h2, h3, h4⟩ := set_sim_weak cfg hc h k v 2 r (by omega)
+      refine ⟨s', .bool b, by simp [SL.step, h1], Or.inl h2, ?_, by omega⟩
+      simp only [OMap.stepW]
+      simp only [show (2 : Nat) ≠ 0 by decide, show (2 : Nat) ≠ 1 by decide, if_false] at h4
+      by_cases hs : (OMap.getW cfg.cmp (toMap s) k).isSome = true
+      · simp only [hs, if_true] at h4 ⊢
+        obtain ⟨e1, e2⟩ := Prod.mk.inj h4; rw [e1, e2]
+      · simp only [hs, if_false] at h4 ⊢
+        obtain ⟨e1, e2⟩ := Prod.mk.inj h4; rw [e1, e2]; simp
+    | remove k =>
+      cases hfk : findEq cfg.cmp k (chain0 s) with
+      | some n =>
+        obtain ⟨hk, hnk⟩ := findEq_some hfk
+        obtain ⟨val, lvl, h1, h2, h3⟩ := remove_found cfg hc h hfk
+        obtain ⟨hi, _, hm⟩ := Inv.of_removed hc h hk h2
+        have hget : OMap.getW cfg.cmp (toMap s) k = some val := by
+          rw [h.getW_toMap, hfk]; exact h1
+        rw [← omap_erase_congr hc hnk] at hm
+        refine ⟨_, .valBool val true, by simp [SL.step, h3], Or.inl hi, by simp [OMap.stepW, hget, hm], ?_⟩
+        have := hi.lvl; have := h.lvl
+        -- the level never grows on removal
+        unfold levelAfter at h2
+        simp only [removed]
+        split at h2
+        · obtain ⟨m', hm', _, hle, _⟩ := shrink_spec (delTop cfg.cmp n (heightOf s n) s.lv) s.level
+            (by rw [length_delTop, h.len32]; exact h.lvl.2) h.lvl.1
+          rw [hm'] at h2; cases h2; omega
+        · cases h2; omega
+      | none =>
+        have hget : OMap.getW cfg.cmp (toMap s) k = none := by
+          rw [h.getW_toMap, hfk]; rfl
+        exact ⟨s, .valBool cfg.zeroV false, by simp [SL.step, remove_absent cfg hc h hfk], Or.inl h,
+          by simp [OMap.stepW, hget], by omega⟩
+    | clear =>
+      obtain ⟨rest, hr⟩ := h.lv_cons
+      have : s.clear cfg = { s with lv := List.replicate maxLevel [], vals := [], level := 1, len := 0 } := by
+        simp [SL.clear, hr]
+      refine ⟨s.clear cfg, .unit, by simp [SL.step], Or.inl ?_, ?_, ?_⟩
+      · rw [this]
+        have hi := Inv.init (K := K) (V := V) cfg.cmp
+        exact ⟨hi.len32, hi.tower, hi.lvl, hi.above, hi.top, hi.len, hi.vals, hi.valsNodup, h.rand⟩
+      · rw [this]; simp [OMap.stepW, toMap, chain0, maxLevel]
+      · rw [this]; have := h.lvl; simp only []; omega
+    | get k =>
+      cases hg : OMap.getW cfg.cmp (toMap s) k with
+      | none =>
+        exact ⟨s, .valBool cfg.zeroV false, by simp [SL.step, get_spec cfg hc h, hg], Or.inl h,
+          by simp [OMap.stepW, hg], by omega⟩
+      | some v0 =>
+        exact ⟨s, .valBool v0 true, by simp [SL.step, get_spec cfg hc h, hg], Or.inl h,
+          by simp [OMap.stepW, hg], by omega⟩
+    | getNode k =>
+      exact ⟨s, .node (findEq cfg.cmp k (chain0 s)), by simp [SL.step, getNode_spec cfg hc h], Or.inl h,
+        by simp [OMap.stepW, h.keyW_toMap], by omega⟩
+    | setNodeValue k v =>
+      cases hfk : findEq cfg.cmp k (chain0 s) with
+      | some n =>
+        obtain ⟨hk, hnk⟩ := findEq_some hfk
+        obtain ⟨hi, _, hm⟩ := Inv.of_setVal hc h hk v
+        have hkw : OMap.keyW cfg.cmp (toMap s) k = some n := by rw [h.keyW_toMap, hfk]
+        exact ⟨_, .node (some n), by simp [SL.step, getNode_spec cfg hc h, hfk, SL.setNodeValue], Or.inl hi,
+          by simp [OMap.stepW, hkw, omap_setW_of_some hc hkw, hm], by simp only []; omega⟩
+      | none =>
+        have hkw : OMap.keyW cfg.cmp (toMap s) k = none := by rw [h.keyW_toMap, hfk]
+        exact ⟨s, .node none, by simp [SL.step, getNode_spec cfg hc h, hfk], Or.inl h,
+          by simp [OMap.stepW, hkw], by omega⟩
+    | len => exact ⟨s, .int s.len, by simp [SL.step], Or.inl h, by simp [OMap.stepW, h.len_eq], by omega⟩
+    | head =>
+      exact ⟨s, .node ((toMap s).head?.map Prod.fst), by simp [SL.step, head_spec h], Or.inl h,
+        by simp [OMap.stepW], by omega⟩
+    | keys =>
+      exact ⟨s, .keys ((toMap s).map Prod.fst), by simp [SL.step, keys_spec cfg h], Or.inl h,
+        by simp [OMap.stepW], by omega⟩
+    | values =>
+      exact ⟨s, .vals ((toMap s).map Prod.snd), by simp [SL.step, values_spec cfg h], Or.inl h,
+        by simp [OMap.stepW], by omega⟩
+    | range stop =>
+      exact ⟨s, .kvs (stopAfter stop (toMap s)), by simp [SL.step, range_spec cfg h], Or.inl h,
+        by simp [OMap.stepW], by omega⟩
+    | all stop =>
+      exact ⟨s, .kvs (stopAfter stop (toMap s)), by simp [SL.step, range_spec cfg h], Or.inl h,
+        by simp [OMap.stepW], by omega⟩
+    | rangeWithStart st stop =>
+      exact ⟨s, .kvs (stopAfter stop (OMap.from cfg.cmp (toMap s) st)),
+        by simp [SL.step, rangeFrom_spec cfg hc h, bounded], Or.inl h, by simp [OMap.stepW], by omega⟩
+    | rangeWithRange st e stop =>
+      exact ⟨s, .kvs (stopAfter stop (OMap.between cfg.cmp (toMap s) st e)),
+        by simp [SL.step, rangeFrom_spec cfg hc h, bounded_from_eq_between hc h], Or.inl h,
+        by simp [OMap.stepW], by omega⟩
+  · -- the zero value of `SkipList`
+    have hinit : Inv cfg.cmp (SL.init : SL K V) := Inv.init cfg.cmp
+    have hz : Good cfg (SL.zero : SL K V) := Or.inr ⟨hl, rfl⟩
+    cases op with
+    | set k v r =>
+      obtain ⟨s', b, h1, h2, h3, h4⟩ := set_sim_weak cfg hc hinit k v 0 r (by omega)
+      simp only [if_true, Prod.mk.injEq] at h4
+      refine ⟨s', .unit, by simp [SL.step, zero_set cfg hl, h1], Or.inl h2, ?_, ?_⟩
+      · rw [toMap_init] at h4; simp [OMap.stepW, toMap_zero, h4.1]
+      · have := h2.lvl; simp [SL.init] at h3; simp [SL.zero]; omega
+    | setX k v r =>
+      obtain ⟨s', b, h1, h2, h3, h4⟩ := set_sim_weak cfg hc hinit k v 1 r (by omega)
+      rw [toMap_init] at h4
+      simp [OMap.getW] at h4
+      refine ⟨s', .bool b, by simp [SL.step, zero_set cfg hl, h1], ?_, ?_, ?_⟩
+      · exact Or.inl h2
+      · simp [OMap.stepW, toMap_zero, OMap.getW, h4.1, h4.2]
+      · have := h2.lvl; simp [SL.init] at h3; simp [SL.zero]; omega
+    | setNx k v r =>
+      obtain ⟨s', b, h1, h2, h3, h4⟩ := set_sim_weak cfg hc hinit k v 2 r (by omega)
+      rw [toMap_init] at h4
+      simp [OMap.getW] at h4
+      refine ⟨s', .bool b, by simp [SL.step, zero_set cfg hl, h1], Or.inl h2, ?_, ?_⟩
+      · simp [OMap.stepW, toMap_zero, OMap.getW, h4.1, h4.2]
+      · have := h2.lvl; simp [SL.init] at h3; simp [SL.zero]; omega
+    | remove k =>
+      exact ⟨SL.zero, .valBool cfg.zeroV false,
+        by simp [SL.step, SL.remove, SL.levelsDown, SL.zero, removeLoop], hz,
+        by simp [OMap.stepW, toMap_zero, OMap.getW], by omega⟩
+    | clear =>
+      exact ⟨SL.zero, .unit, by simp [SL.step, SL.clear, hf, hl, SL.zero], hz,
+        by simp [OMap.stepW, toMap_zero], by omega⟩
+    | get k =>
+      exact ⟨SL.zero, .valBool cfg.zeroV false,
+        by simp [SL.step, SL.get, SL.getNode, SL.levelsDown, SL.zero, findLoop], hz,
+        by simp [OMap.stepW, toMap_zero, OMap.getW], by omega⟩
+    | getNode k =>
+      exact ⟨SL.zero, .node none, by simp [SL.step, SL.getNode, SL.levelsDown, SL.zero, findLoop], hz,
+        by simp [OMap.stepW, toMap_zero, OMap.keyW], by omega⟩
+    | setNodeValue k v =>
+      exact ⟨SL.zero, .node none, by simp [SL.step, SL.getNode, SL.levelsDown, SL.zero, findLoop], hz,
+        by simp [OMap.stepW, toMap_zero, OMap.keyW], by omega⟩
+    | len => exact ⟨SL.zero, .int 0, by simp [SL.step, SL.zero], hz, by simp [OMap.stepW, toMap_zero], by omega⟩
+    | head => exact ⟨SL.zero, .node none, by simp [SL.step, SL.head, SL.zero], hz, by simp [OMap.stepW, toMap_zero], by omega⟩
+    | keys => exact ⟨SL.zero, .keys [], by simp [SL.step, SL.keys, SL.zero], hz, by simp [OMap.stepW, toMap_zero], by omega⟩
+    | values => exact ⟨SL.zero, .vals [], by simp [SL.step, SL.values, SL.zero], hz, by simp [OMap.stepW, toMap_zero], by omega⟩
+    | range stop =>
+      exact ⟨SL.zero, .kvs [], by simp [SL.step, SL.range, SL.zero], hz, by simp [OMap.stepW, toMap_zero, stopAfter], by omega⟩
+    | all stop =>
+      exact ⟨SL.zero, .kvs [], by simp [SL.step, SL.range, SL.zero], hz, by simp [OMap.stepW, toMap_zero, stopAfter], by omega⟩
+    | rangeWithStart st stop =>
+      exact ⟨SL.zero, .kvs [], by simp [SL.step, SL.rangeFrom, SL.zero, hf, hl], hz,
+        by simp [OMap.stepW, toMap_zero, stopAfter, OMap.from], by omega⟩
+    | rangeWithRange st e stop =>
+      exact ⟨SL.zero, .kvs [], by simp [SL.step, SL.rangeFrom, SL.zero, hf, hl], hz,
+        by simp [OMap.stepW, toMap_zero, stopAfter, OMap.between], by omega⟩
+
+/-! ### under a total-order comparator the weak-order specification is the plain one -/
+
+theorem eqv_pred_total {cmp : K → K → Int} (hc : TotalCmp cmp) (k : K) :
+    (fun p : K × V => cmp p.1 k == 0) = (fun p => decide (p.1 = k)) := by
+  funext p
+  rw [Bool.eq_iff_iff]
+  simp [hc.eq_iff]
+
+theorem OMap.getW_eq_get {cmp : K → K → Int} (hc : TotalCmp cmp) (m : List (K × V)) (k : K) :
+    OMap.getW cmp m k = OMap.get m k := by
+  unfold OMap.getW OMap.get; rw [eqv_pred_total hc]
+
+theorem OMap.keyW_eq {cmp : K → K → Int} (hc : TotalCmp cmp) (m : List (K × V)) (k : K) :
+    OMap.keyW cmp m k = if (OMap.get m k).isSome then some k else none := by
+  unfold OMap.keyW OMap.get; rw [eqv_pred_total hc]
+  cases hf : m.find? (fun p => decide (p.1 = k)) with
+  | none => rfl
+  | some p =>
+    have := List.find?_some hf
+    simp only [decide_eq_true_eq] at this
+    simp [this]
+
+theorem OMap.setW_eq_set {cmp : K → K → Int} (hc : TotalCmp cmp) (m : List (K × V)) (k : K) (v : V) :
+    OMap.setW cmp m k v = OMap.set cmp m k v := by
+  unfold OMap.setW OMap.set
+  rw [OMap.keyW_eq hc]
+  split <;> rfl
+
+/-- For a total-order comparator the weak-order specification step is the plain one (on every
+association list, sorted or not). -/
+theorem OMap.stepW_eq_step (cfg : Cfg K V) (hc : TotalCmp cfg.cmp) (m : List (K × V)) (op : Op K V) :
+    OMap.stepW cfg m op = OMap.step cfg m op := by
+  cases op <;>
+    simp only [OMap.stepW, OMap.step, OMap.getW_eq_get hc, OMap.setW_eq_set hc, OMap.keyW_eq hc]
+  -- `setNodeValue`
+  rename_i k v
+  by_cases h : (OMap.get m k).isSome = true <;> simp [h]
+
+/-- `set` on an initialised list (total-order comparator). -/
 theorem set_sim (cfg : Cfg K V) (hc : TotalCmp cfg.cmp) {s : SL K V} (h : Inv cfg.cmp s)
     (k : K) (v : V) (mode r : Nat) (hmode : mode ≤ 2) :
     ∃ s' b, s.set cfg k v mode r = some (s', b) ∧ Inv cfg.cmp s' ∧ s'.level ≤ s.level + 1 ∧
@@ -119,35 +417,9 @@ theorem set_sim (cfg : Cfg K V) (hc : TotalCmp cfg.cmp) {s : SL K V} (h : Inv cf
            (if (OMap.get (toMap s) k).isSome then (OMap.set cfg.cmp (toMap s) k v, true) else (toMap s, false))
          else
            (if (OMap.get (toMap s) k).isSome then (toMap s, false) else (OMap.set cfg.cmp (toMap s) k v, true))) := by
-  obtain ⟨hr1, hr2⟩ := randomLevel_range r
-  unfold SL.set
-  rw [h.isSome_get]
-  by_cases hk : k ∈ chain0 s
-  · rw [setH_found cfg hc h hk]
-    obtain ⟨hi, _, hm⟩ := Inv.of_setVal hc h hk v
-    by_cases h2 : mode = 2
-    · subst h2; exact ⟨s, false, by simp, h, by omega, by simp [hk]⟩
-    · refine ⟨_, true, by simp [h2], hi, by simp, ?_⟩
-      rw [hm]
-      by_cases h0 : mode = 0
-      · simp [h0]
-      · have : mode = 1 := by omega
-        simp [this, hk]
-  · rw [setH_absent cfg hc h hk v mode _ hr2]
-    obtain ⟨hi, _, hm⟩ := Inv.of_inserted hc h hk v hr1 hr2
-    by_cases h1 : mode = 1
-    · subst h1; exact ⟨s, false, by simp, h, by omega, by simp [hk]⟩
-    · refine ⟨_, true, by simp [h1], hi, ?_, ?_⟩
-      · simp only [inserted]; split <;> omega
-      · rw [hm]
-        by_cases h0 : mode = 0
-        · simp [h0]
-        · have : mode = 2 := by omega
-          simp [this, hk]
-
-theorem zero_set (cfg : Cfg K V) (hl : cfg.lazy = true) (k : K) (v : V) (mode r : Nat) :
-    (SL.zero : SL K V).set cfg k v mode r = (SL.init : SL K V).set cfg k v mode r := by
-  simp [SL.set, SL.setH, SL.zero, hl, SL.init, maxLevel]
+  have := set_sim_weak cfg hc.toWeak h k v mode r hmode
+  rw [OMap.getW_eq_get hc, OMap.setW_eq_set hc] at this
+  exact this
 
 /-- One step of the simulation: no panic, reachable states stay reachable, the abstraction
 commutes with the step, outputs agree, the level grows by at most one. -/
@@ -155,160 +427,9 @@ theorem step_sim (cfg : Cfg K V) (hc : TotalCmp cfg.cmp) (hf : cfg.fixed = true)
     (hg : Good cfg s) (op : Op K V) :
     ∃ s' out, s.step cfg op = some (s', out) ∧ Good cfg s' ∧
       OMap.step cfg (toMap s) op = (toMap s', out) ∧ s'.level ≤ max s.level 1 + 1 := by
-  rcases hg with h | ⟨hl, rfl⟩
-  · -- initialised
-    cases op with
-    | set k v r =>
-      obtain ⟨s', b, h1, h2, h3, h4⟩ := set_sim cfg hc h k v 0 r (by omega)
-      simp only [if_true, Prod.mk.injEq] at h4
-      exact ⟨s', .unit, by simp [SL.step, h1], Or.inl h2, by simp [OMap.step, h4.1], by omega⟩
-    | setX k v r =>
-      obtain ⟨s', b, h1, h2, h3, h4⟩ := set_sim cfg hc h k v 1 r (by omega)
-      refine ⟨s', .bool b, by simp [SL.step, h1], Or.inl h2, ?_, by omega⟩
-      simp only [OMap.step]
-      simp only [show (1 : Nat) ≠ 0 by decide, if_false, if_true] at h4
-      by_cases hs : (OMap.get (toMap s) k).isSome = true
-      · simp only [hs, if_true] at h4 ⊢
-        obtain ⟨e1, e2⟩ := Prod.mk.inj h4; rw [e1, e2]
-      · simp only [hs, if_false] at h4 ⊢
-        obtain ⟨e1, e2⟩ := Prod.mk.inj h4; rw [e1, e2]; simp
-    | setNx k v r =>
-      obtain ⟨s', b, h1, h2, h3, h4⟩ := set_sim cfg hc h k v 2 r (by omega)
-      refine ⟨s', .bool b, by simp [SL.step, h1], Or.inl h2, ?_, by omega⟩
-      simp only [OMap.step]
-      simp only [show (2 : Nat) ≠ 0 by decide, show (2 : Nat) ≠ 1 by decide, if_false] at h4
-      by_cases hs : (OMap.get (toMap s) k).isSome = true
-      · simp only [hs, if_true] at h4 ⊢
-        obtain ⟨e1, e2⟩ := Prod.mk.inj h4; rw [e1, e2]
-      · simp only [hs, if_false] at h4 ⊢
-        obtain ⟨e1, e2⟩ := Prod.mk.inj h4; rw [e1, e2]; simp
-    | remove k =>
-      by_cases hk : k ∈ chain0 s
-      · obtain ⟨val, lvl, h1, h2, h3⟩ := remove_found cfg hc h hk
-        obtain ⟨hi, _, hm⟩ := Inv.of_removed hc h hk h2
-        have hget : OMap.get (toMap s) k = some val := by
-          rw [toMap_eq, omap_get_filterMap]; simp [hk, h1]
-        refine ⟨_, .valBool val true, by simp [SL.step, h3], Or.inl hi, by simp [OMap.step, hget, hm], ?_⟩
-        have := hi.lvl; have := h.lvl
-        -- the level never grows on removal
-        unfold levelAfter at h2
-        simp only [removed]
-        split at h2
-        · obtain ⟨m', hm', _, hle, _⟩ := shrink_spec (delTop cfg.cmp k (heightOf s k) s.lv) s.level
-            (by rw [length_delTop, h.len32]; exact h.lvl.2) h.lvl.1
-          rw [hm'] at h2; cases h2; omega
-        · cases h2; omega
-      · have hget : OMap.get (toMap s) k = none := by
-          rw [toMap_eq, omap_get_filterMap]; simp [hk]
-        exact ⟨s, .valBool cfg.zeroV false, by simp [SL.step, remove_absent cfg hc h hk], Or.inl h,
-          by simp [OMap.step, hget], by omega⟩
-    | clear =>
-      obtain ⟨rest, hr⟩ := h.lv_cons
-      have : s.clear cfg = { s with lv := List.replicate maxLevel [], vals := [], level := 1, len := 0 } := by
-        simp [SL.clear, hr]
-      refine ⟨s.clear cfg, .unit, by simp [SL.step], Or.inl ?_, ?_, ?_⟩
-      · rw [this]
-        have hi := Inv.init (K := K) (V := V) cfg.cmp
-        exact ⟨hi.len32, hi.tower, hi.lvl, hi.above, hi.top, hi.len, hi.vals, hi.valsNodup, h.rand⟩
-      · rw [this]; simp [OMap.step, toMap, chain0, maxLevel]
-      · rw [this]; have := h.lvl; simp only []; omega
-    | get k =>
-      cases hg : OMap.get (toMap s) k with
-      | none =>
-        exact ⟨s, .valBool cfg.zeroV false, by simp [SL.step, get_spec cfg hc h, hg], Or.inl h,
-          by simp [OMap.step, hg], by omega⟩
-      | some v0 =>
-        exact ⟨s, .valBool v0 true, by simp [SL.step, get_spec cfg hc h, hg], Or.inl h,
-          by simp [OMap.step, hg], by omega⟩
-    | getNode k =>
-      exact ⟨s, .node (if k ∈ chain0 s then some k else none), by simp [SL.step, getNode_spec cfg hc h], Or.inl h,
-        by simp [OMap.step, h.isSome_get], by omega⟩
-    | setNodeValue k v =>
-      by_cases hk : k ∈ chain0 s
-      · obtain ⟨hi, _, hm⟩ := Inv.of_setVal hc h hk v
-        exact ⟨_, .node (some k), by simp [SL.step, getNode_spec cfg hc h, hk, SL.setNodeValue], Or.inl hi,
-          by simp [OMap.step, h.isSome_get, hk, hm], by simp only []; omega⟩
-      · exact ⟨s, .node none, by simp [SL.step, getNode_spec cfg hc h, hk], Or.inl h,
-          by simp [OMap.step, h.isSome_get, hk], by omega⟩
-    | len => exact ⟨s, .int s.len, by simp [SL.step], Or.inl h, by simp [OMap.step, h.len_eq], by omega⟩
-    | head =>
-      exact ⟨s, .node ((toMap s).head?.map Prod.fst), by simp [SL.step, head_spec h], Or.inl h,
-        by simp [OMap.step], by omega⟩
-    | keys =>
-      exact ⟨s, .keys ((toMap s).map Prod.fst), by simp [SL.step, keys_spec cfg h], Or.inl h,
-        by simp [OMap.step], by omega⟩
-    | values =>
-      exact ⟨s, .vals ((toMap s).map Prod.snd), by simp [SL.step, values_spec cfg h], Or.inl h,
-        by simp [OMap.step], by omega⟩
-    | range stop =>
-      exact ⟨s, .kvs (stopAfter stop (toMap s)), by simp [SL.step, range_spec cfg h], Or.inl h,
-        by simp [OMap.step], by omega⟩
-    | all stop =>
-      exact ⟨s, .kvs (stopAfter stop (toMap s)), by simp [SL.step, range_spec cfg h], Or.inl h,
-        by simp [OMap.step], by omega⟩
-    | rangeWithStart st stop =>
-      exact ⟨s, .kvs (stopAfter stop (OMap.from cfg.cmp (toMap s) st)),
-        by simp [SL.step, rangeFrom_spec cfg hc h, bounded], Or.inl h, by simp [OMap.step], by omega⟩
-    | rangeWithRange st e stop =>
-      exact ⟨s, .kvs (stopAfter stop (OMap.between cfg.cmp (toMap s) st e)),
-        by simp [SL.step, rangeFrom_spec cfg hc h, bounded_from_eq_between hc h], Or.inl h,
-        by simp [OMap.step], by omega⟩
-  · -- the zero value of `SkipList`
-    have hinit : Inv cfg.cmp (SL.init : SL K V) := Inv.init cfg.cmp
-    have hz : Good cfg (SL.zero : SL K V) := Or.inr ⟨hl, rfl⟩
-    cases op with
-    | set k v r =>
-      obtain ⟨s', b, h1, h2, h3, h4⟩ := set_sim cfg hc hinit k v 0 r (by omega)
-      simp only [if_true, Prod.mk.injEq] at h4
-      refine ⟨s', .unit, by simp [SL.step, zero_set cfg hl, h1], Or.inl h2, ?_, ?_⟩
-      · rw [toMap_init] at h4; simp [OMap.step, toMap_zero, h4.1]
-      · have := h2.lvl; simp [SL.init] at h3; simp [SL.zero]; omega
-    | setX k v r =>
-      obtain ⟨s', b, h1, h2, h3, h4⟩ := set_sim cfg hc hinit k v 1 r (by omega)
-      rw [toMap_init] at h4
-      simp [OMap.get] at h4
-      refine ⟨s', .bool b, by simp [SL.step, zero_set cfg hl, h1], ?_, ?_, ?_⟩
-      · exact Or.inl h2
-      · simp [OMap.step, toMap_zero, OMap.get, h4.1, h4.2]
-      · have := h2.lvl; simp [SL.init] at h3; simp [SL.zero]; omega
-    | setNx k v r =>
-      obtain ⟨s', b, h1, h2, h3, h4⟩ := set_sim cfg hc hinit k v 2 r (by omega)
-      rw [toMap_init] at h4
-      simp [OMap.get] at h4
-      refine ⟨s', .bool b, by simp [SL.step, zero_set cfg hl, h1], Or.inl h2, ?_, ?_⟩
-      · simp [OMap.step, toMap_zero, OMap.get, h4.1, h4.2]
-      · have := h2.lvl; simp [SL.init] at h3; simp [SL.zero]; omega
-    | remove k =>
-      exact ⟨SL.zero, .valBool cfg.zeroV false,
-        by simp [SL.step, SL.remove, SL.levelsDown, SL.zero, removeLoop], hz,
-        by simp [OMap.step, toMap_zero, OMap.get], by omega⟩
-    | clear =>
-      exact ⟨SL.zero, .unit, by simp [SL.step, SL.clear, hf, hl, SL.zero], hz,
-        by simp [OMap.step, toMap_zero], by omega⟩
-    | get k =>
-      exact ⟨SL.zero, .valBool cfg.zeroV false,
-        by simp [SL.step, SL.get, SL.getNode, SL.levelsDown, SL.zero, findLoop], hz,
-        by simp [OMap.step, toMap_zero, OMap.get], by omega⟩
-    | getNode k =>
-      exact ⟨SL.zero, .node none, by simp [SL.step, SL.getNode, SL.levelsDown, SL.zero, findLoop], hz,
-        by simp [OMap.step, toMap_zero, OMap.get], by omega⟩
-    | setNodeValue k v =>
-      exact ⟨SL.zero, .node none, by simp [SL.step, SL.getNode, SL.levelsDown, SL.zero, findLoop], hz,
-        by simp [OMap.step, toMap_zero, OMap.get], by omega⟩
-    | len => exact ⟨SL.zero, .int 0, by simp [SL.step, SL.zero], hz, by simp [OMap.step, toMap_zero], by omega⟩
-    | head => exact ⟨SL.zero, .node none, by simp [SL.step, SL.head, SL.zero], hz, by simp [OMap.step, toMap_zero], by omega⟩
-    | keys => exact ⟨SL.zero, .keys [], by simp [SL.step, SL.keys, SL.zero], hz, by simp [OMap.step, toMap_zero], by omega⟩
-    | values => exact ⟨SL.zero, .vals [], by simp [SL.step, SL.values, SL.zero], hz, by simp [OMap.step, toMap_zero], by omega⟩
-    | range stop =>
-      exact ⟨SL.zero, .kvs [], by simp [SL.step, SL.range, SL.zero], hz, by simp [OMap.step, toMap_zero, stopAfter], by omega⟩
-    | all stop =>
-      exact ⟨SL.zero, .kvs [], by simp [SL.step, SL.range, SL.zero], hz, by simp [OMap.step, toMap_zero, stopAfter], by omega⟩
-    | rangeWithStart st stop =>
-      exact ⟨SL.zero, .kvs [], by simp [SL.step, SL.rangeFrom, SL.zero, hf, hl], hz,
-        by simp [OMap.step, toMap_zero, stopAfter, OMap.from], by omega⟩
-    | rangeWithRange st e stop =>
-      exact ⟨SL.zero, .kvs [], by simp [SL.step, SL.rangeFrom, SL.zero, hf, hl], hz,
-        by simp [OMap.step, toMap_zero, stopAfter, OMap.between], by omega⟩
+  obtain ⟨s', out, h1, h2, h3, h4⟩ := step_sim_weak cfg hc.toWeak hf hg op
+  rw [OMap.stepW_eq_step cfg hc] at h3
+  exact ⟨s', out, h1, h2, h3, h4⟩
 
 /-- Run a sequence of calls on the model: final state and outputs (`none` = some call panicked). -/
 def SL.run (cfg : Cfg K V) : SL K V → List (Op K V) → Option (SL K V × List (Out K V))
@@ -326,20 +447,46 @@ def OMap.run (cfg : Cfg K V) : List (K × V) → List (Op K V) → List (K × V)
     let (m'', outs) := OMap.run cfg m' ops
     (m'', out :: outs)
 
-theorem run_sim (cfg : Cfg K V) (hc : TotalCmp cfg.cmp) (hf : cfg.fixed = true) :
+/-- The same sequence on the weak-order specification. -/
+def OMap.runW (cfg : Cfg K V) : List (K × V) → List (Op K V) → List (K × V) × List (Out K V)
+  | m, [] => (m, [])
+  | m, op :: ops =>
+    let (m', out) := OMap.stepW cfg m op
+    let (m'', outs) := OMap.runW cfg m' ops
+    (m'', out :: outs)
+
+theorem run_sim_weak (cfg : Cfg K V) (hc : WeakCmp cfg.cmp) (hf : cfg.fixed = true) :
     ∀ (ops : List (Op K V)) {s : SL K V}, Good cfg s →
       ∃ s' outs, SL.run cfg s ops = some (s', outs) ∧ Good cfg s' ∧
-        OMap.run cfg (toMap s) ops = (toMap s', outs) := by
+        OMap.runW cfg (toMap s) ops = (toMap s', outs) := by
   intro ops
   induction ops with
   | nil => intro s hg; exact ⟨s, [], rfl, hg, rfl⟩
   | cons op ops ih =>
     intro s hg
-    obtain ⟨s1, out, h1, h2, h3, _⟩ := step_sim cfg hc hf hg op
+    obtain ⟨s1, out, h1, h2, h3, _⟩ := step_sim_weak cfg hc hf hg op
     obtain ⟨s2, outs, h4, h5, h6⟩ := ih h2
     refine ⟨s2, out :: outs, ?_, h5, ?_⟩
     · simp [SL.run, h1, h4]
-    · simp [OMap.run, h3, h6]
+    · simp [OMap.runW, h3, h6]
+
+theorem OMap.runW_eq_run (cfg : Cfg K V) (hc : TotalCmp cfg.cmp) :
+    ∀ (ops : List (Op K V)) (m : List (K × V)), OMap.runW cfg m ops = OMap.run cfg m ops := by
+  intro ops
+  induction ops with
+  | nil => intro m; rfl
+  | cons op ops ih =>
+    intro m
+    simp only [OMap.runW, OMap.run, OMap.stepW_eq_step cfg hc, ih]
+
+theorem run_sim (cfg : Cfg K V) (hc : TotalCmp cfg.cmp) (hf : cfg.fixed = true) :
+    ∀ (ops : List (Op K V)) {s : SL K V}, Good cfg s →
+      ∃ s' outs, SL.run cfg s ops = some (s', outs) ∧ Good cfg s' ∧
+        OMap.run cfg (toMap s) ops = (toMap s', outs) := by
+  intro ops s hg
+  obtain ⟨s', outs, h1, h2, h3⟩ := run_sim_weak cfg hc.toWeak hf ops hg
+  rw [OMap.runW_eq_run cfg hc] at h3
+  exact ⟨s', outs, h1, h2, h3⟩
 
 /-- Forget the random words. -/
 def Op.eraseR : Op K V → Op K V
@@ -360,5 +507,18 @@ theorem omap_run_eraseR (cfg : Cfg K V) : ∀ (ops : List (Op K V)) (m : List (K
   | cons op ops ih =>
     intro m
     simp only [List.map_cons, OMap.run, omap_step_eraseR, ih]
+
+theorem omap_stepW_eraseR (cfg : Cfg K V) (m : List (K × V)) (op : Op K V) :
+    OMap.stepW cfg m op.eraseR = OMap.stepW cfg m op := by
+  cases op <;> rfl
+
+theorem omap_runW_eraseR (cfg : Cfg K V) : ∀ (ops : List (Op K V)) (m : List (K × V)),
+    OMap.runW cfg m (ops.map Op.eraseR) = OMap.runW cfg m ops := by
+  intro ops
+  induction ops with
+  | nil => intro m; rfl
+  | cons op ops ih =>
+    intro m
+    simp only [List.map_cons, OMap.runW, omap_stepW_eraseR, ih]
 
 end Golib.C02
